@@ -9694,13 +9694,23 @@ def _write_node(node, xml_tree=None, viewport_transform=None):
         if node.ry is not None:
             xml_tree.set(SVG_ATTR_RADIUS_Y, str(node.ry))
     elif isinstance(node, Circle):
-        xml_tree = subxml(xml_tree, SVG_TAG_CIRCLE)
+        if node.rx == node.ry:
+            xml_tree = subxml(xml_tree, SVG_TAG_CIRCLE)
+        else:
+            # A circle reified under a non-uniform scale has two radii: only an ellipse can express it.
+            xml_tree = subxml(xml_tree, SVG_TAG_ELLIPSE)
+            if SVG_ATTR_RADIUS in xml_tree.attrib:
+                del xml_tree.attrib[SVG_ATTR_RADIUS]
         if node.cx is not None:
             xml_tree.set(SVG_ATTR_CENTER_X, str(node.cx))
         if node.cy is not None:
             xml_tree.set(SVG_ATTR_CENTER_Y, str(node.cy))
-        if node.rx is not None:
-            xml_tree.set(SVG_ATTR_RADIUS, str(node.rx))
+        if node.rx == node.ry:
+            if node.rx is not None:
+                xml_tree.set(SVG_ATTR_RADIUS, str(node.rx))
+        else:
+            xml_tree.set(SVG_ATTR_RADIUS_X, str(node.rx))
+            xml_tree.set(SVG_ATTR_RADIUS_Y, str(node.ry))
     elif isinstance(node, Image):
         xml_tree = subxml(xml_tree, SVG_TAG_IMAGE)
         from base64 import b64encode
